@@ -24,6 +24,15 @@ import (
 
 const VerifRoot = "/verif"
 
+// outRoot is where run logs, evidence and replay files go; VERIF_OUT redirects it for
+// mutant runs against scratch copies so they do not disturb /verif/evidence.
+func outRoot() string {
+	if v := os.Getenv("VERIF_OUT"); v != "" {
+		return v
+	}
+	return VerifRoot
+}
+
 // Prop describes one property check served by an engine binary.
 type Prop struct {
 	ID               string
@@ -381,7 +390,7 @@ func runReplay(p *Prop, path string) int {
 		fmt.Fprintln(os.Stderr, err)
 		return 2
 	}
-	dir := filepath.Join(VerifRoot, "run", p.ID, "replay")
+	dir := filepath.Join(outRoot(), "run", p.ID, "replay")
 	_ = os.MkdirAll(dir, 0o755)
 	outf := filepath.Join(dir, "result.json")
 	_ = os.Remove(outf)
@@ -428,11 +437,11 @@ func runParent(p *Prop, tier string, seed int64) int {
 	nb := tierFn(p.Batches, tier, 1)
 	par := tierFn(p.Parallel, tier, 4)
 	tmo := tierFn(p.TimeoutSec, tier, 600)
-	runDir := filepath.Join(VerifRoot, "run", p.ID)
+	runDir := filepath.Join(outRoot(), "run", p.ID)
 	_ = os.RemoveAll(runDir)
 	_ = os.MkdirAll(runDir, 0o755)
-	_ = os.MkdirAll(filepath.Join(VerifRoot, "evidence"), 0o755)
-	_ = os.MkdirAll(filepath.Join(VerifRoot, "replay"), 0o755)
+	_ = os.MkdirAll(filepath.Join(outRoot(), "evidence"), 0o755)
+	_ = os.MkdirAll(filepath.Join(outRoot(), "replay"), 0o755)
 
 	outcomes := make([]childOutcome, nb)
 	sem := make(chan struct{}, par)
@@ -545,7 +554,7 @@ func runParent(p *Prop, tier string, seed int64) int {
 			continue
 		}
 		printedV[v.Key]++
-		rp := filepath.Join(VerifRoot, "replay", fmt.Sprintf("%s-%s-s%d-%d.json", p.ID, tier, seed, i))
+		rp := filepath.Join(outRoot(), "replay", fmt.Sprintf("%s-%s-s%d-%d.json", p.ID, tier, seed, i))
 		rf := replayFile{Property: p.ID, Tier: tier, Seed: seed, NBatch: nb, V: v}
 		for _, o := range outcomes {
 			for _, ov := range o.res.Violations {
@@ -612,7 +621,7 @@ func runParent(p *Prop, tier string, seed int64) int {
 		"violations":  nViol,
 	}
 	b, _ := json.MarshalIndent(ev, "", " ")
-	_ = os.WriteFile(filepath.Join(VerifRoot, "evidence", p.ID+".json"), b, 0o644)
+	_ = os.WriteFile(filepath.Join(outRoot(), "evidence", p.ID+".json"), b, 0o644)
 
 	fmt.Printf("%s %s seed=%d: evaluations=%d distinct_nontrivial=%d inconclusive=%d violations=%d known=%d races(anchor/other)=%d/%d wall=%.0fs\n",
 		p.ID, tier, seed, merged.Evaluations, len(nt), merged.Counters["inconclusive"], nViol, merged.Counters["known_finding_witnesses"],
